@@ -1405,6 +1405,24 @@ class Engine:
                     for (s2, a, kw) in self.ev_args(e, s1, out):
                         out += self.container_method(ref, fn.attr, s2, a, kw)
             return out
+        if isinstance(fn, ast.Attribute) and fn.attr in MUTATORS and isinstance(fn.value, ast.Subscript) and isinstance(fn.value.value, ast.Name) \
+                and isinstance(st.env.get(fn.value.value.id), PyRef) and st.env[fn.value.value.id].kind == 'dict':
+            # d[key].append(x) on a dictionary owned by this activation: in-place mutation of the container stored under key (KeyError when absent)
+            owner = st.env[fn.value.value.id]
+            for (s0, k) in self.ev(fn.value.slice, st):
+                if isinstance(k, Raise):
+                    out.append((s0, k)); continue
+                kt, s0 = self.term(k, s0)
+                cur = lookup(V.ditems(self.read(owner, s0)), kt)
+                q = self.fork(s0, cur == V.Missing)
+                if q is not None:
+                    out.append((q, Raise(self.exc_new('KeyError'))))
+                q = self.fork(s0, cur != V.Missing)
+                if q is not None:
+                    ref = ItemRef(owner, kt, cur)
+                    for (s2, a, kw) in self.ev_args(e, q, out):
+                        out += self.container_method(ref, fn.attr, s2, a, kw)
+            return out
         for (s0, f) in self.ev(fn, st):
             if isinstance(f, Raise):
                 out.append((s0, f)); continue
